@@ -458,6 +458,8 @@ pub struct CliRun {
     /// ops that reported Err(Shutdown) from a handle: (op index, time)
     pub handle_shutdown_errors: Vec<(usize, Duration)>,
     pub op_times: Vec<Duration>,
+    /// how often the client task future was polled
+    pub polls: u64,
 }
 
 fn record(ledger: &SharedLedger, start: tokio::time::Instant, id: usize, res: Res) {
@@ -757,7 +759,7 @@ pub fn run_client(case: &CliCase) -> CliRun {
         let pl = peer_logs.clone();
         let cio = cur_io.clone();
         // the emulated outer loop: the same shape as TcpChannelTask::run_inner
-        let task = tokio::spawn(async move {
+        let (task_fut, polls) = sim::PollCounted::new(async move {
             let log = |e: LoopEvent| {
                 ev.lock()
                     .unwrap()
@@ -813,6 +815,7 @@ pub fn run_client(case: &CliCase) -> CliRun {
             }
             log(LoopEvent::TaskEnd);
         });
+        let task = tokio::spawn(task_fut);
 
         let mut handles: Vec<Option<Channel>> = vec![Some(channel)];
         let mut futures: std::collections::BTreeMap<usize, tokio::task::JoinHandle<()>> =
@@ -977,7 +980,14 @@ pub fn run_client(case: &CliCase) -> CliRun {
         tokio::time::sleep(Duration::from_secs(200_000)).await;
         let task_ended = task_ended || task.is_finished();
         let final_time = tokio::time::Instant::now() - start;
-        (task_ended, aborted, final_time, handle_shutdown_errors, op_times)
+        (
+            task_ended,
+            aborted,
+            final_time,
+            handle_shutdown_errors,
+            op_times,
+            polls.load(std::sync::atomic::Ordering::Relaxed),
+        )
     });
     drop(rt);
     let ledger = ledger.lock().unwrap().clone();
@@ -997,6 +1007,7 @@ pub fn run_client(case: &CliCase) -> CliRun {
         final_time: out.2,
         handle_shutdown_errors: out.3,
         op_times: out.4,
+        polls: out.5,
     }
 }
 
